@@ -956,3 +956,22 @@ func (c *Ctx) writesOutsideInit(rel, name string) (int, *ssa.Global) {
 	}
 	return n, g
 }
+
+// countEdgesDeep counts the edges establishing one of the facts in b's function
+// and in the repository helpers it calls (one level, parameters bound to the
+// arguments): a loop moved into a helper still has its loop condition.
+func countEdgesDeep(c *Ctx, b *ana.Builder, patterns ...string) int {
+	n := len(edgesMatching(b, patterns...))
+	for _, ci := range ana.Calls(b.Fn) {
+		h := ana.StaticRepoCallee(ci.Common())
+		if h == nil || h == b.Fn {
+			continue
+		}
+		call := b.CallTermAt(ci)
+		if call.Op != "call" || len(call.Args) != len(h.Params) {
+			continue
+		}
+		n += len(edgesMatching(boundBuilderP(c.P, call), patterns...))
+	}
+	return n
+}
